@@ -111,6 +111,12 @@ impl VDisplay for &str {
     #[verifier::external_body]
     fn vfmt(&self, f: &mut VFormatter) -> (r: VFmtResult) { unimplemented!() }
 }
+/// R5: `x.into()` from &str into the Cow<str> field (modelled as String): same text
+#[verifier::external_body]
+pub fn cow_from(s: &str) -> (r: String) ensures r@ == s@ { s.to_string() }
+/// R11: `a == "lit"` on &str
+#[verifier::external_body]
+pub fn str_eq(a: &str, b: &str) -> (r: bool) ensures r == (a@ == b@) { a == b }
 #[verifier::external_body]
 pub fn str_is_empty(s: &String) -> (r: bool) ensures r == (s@.len() == 0) { s.is_empty() }
 
@@ -272,6 +278,19 @@ impl Evr {
             }
         }
 ''')]),
+    Fn(VER, 'new', impl="impl<'a> Evr<'a>",
+       subs=[("pub fn new<T: Into<Cow<'a, str>>>(epoch: T, version: T, release: T) -> Evr<'a>", 'pub fn new(epoch: &str, version: &str, release: &str) -> (r: Evr)', 1, "R5-generic Into<Cow<'a,str>> instantiated at &str"),
+             (re.compile(r'\b(\w+)\.into\(\)'), r'cow_from(\1)', None, 'R5-Into<Cow<str>> for &str'), (re.compile(r'\b([A-Za-z_][\w.]*) == ("[^"]*")'), r'str_eq(\1, \2)', None, 'R11-&str comparison with a literal')],
+       spec='    ensures r.epoch@ == epoch@, r.version@ == version@, r.release@ == release@,'),
+    Fn(VER, 'from', impl="impl<'a> From<(&'a str, &'a str, &'a str)> for Evr<'a>",
+       subs=[("fn from(val: (&'a str, &'a str, &'a str)) -> Self", 'pub fn from_tuple(val: (&str, &str, &str)) -> (r: Evr)', 1, 'R10-trait-impl-as-inherent-fn'), (re.compile(r'\b(\w+)\.into\(\)'), r'cow_from(\1)', None, 'R5-Into<Cow<str>> for &str'), (re.compile(r'\b([A-Za-z_][\w.]*) == ("[^"]*")'), r'str_eq(\1, \2)', None, 'R11-&str comparison with a literal')],
+       spec='    ensures r.epoch@ == val.0@, r.version@ == val.1@, r.release@ == val.2@,'),
+    Fn(VER, 'parse', impl="impl<'a> Evr<'a>",
+       subs=[("pub fn parse(evr: &'a str) -> Self", 'pub fn parse(evr: &str) -> (x: Evr)', 1, 'R3-named-return'),
+             ('Evr::parse_values(evr).into()', 'Evr::from_tuple(Evr::parse_values(evr))', 1, 'R10-Into via the From impl above')],
+       spec='''    ensures
+        forall|e: Seq<char>, v: Seq<char>, r: Seq<char>| evr_wf(e, v, r) && evr@ == #[trigger] evr_text(e, v, r)
+            ==> x.epoch@ == e && x.version@ == v && x.release@ == r,'''),
     Fn(VER, 'as_normalized_form', impl="impl<'a> Evr<'a>",
        subs=[ret(), format_rule(), (re.compile(r'self\.epoch\.is_empty\(\)'), 'str_is_empty(&self.epoch)', None, 'R5-Cow deref'),
              ('self.epoch.as_ref()', 'self.epoch.as_str()', 1, 'R5-Cow deref')],
@@ -305,6 +324,17 @@ impl VDisplay for Nevra {
 }
 impl Nevra {
 '''),
+    Fn(VER, 'new', impl="impl<'a> Nevra<'a>",
+       subs=[(re.compile(r"pub fn new<T: Into<Cow<'a, str>>>\(\s*name: T,\s*epoch: T,\s*version: T,\s*release: T,\s*arch: T,\s*\) -> Nevra<'a>"),
+              'pub fn new(name: &str, epoch: &str, version: &str, release: &str, arch: &str) -> (r: Nevra)', 1, "R5-generic Into<Cow<'a,str>> instantiated at &str"),
+             (re.compile(r'\b(\w+)\.into\(\)'), r'cow_from(\1)', None, 'R5-Into<Cow<str>> for &str'), (re.compile(r'\b([A-Za-z_][\w.]*) == ("[^"]*")'), r'str_eq(\1, \2)', None, 'R11-&str comparison with a literal')],
+       spec='    ensures r.name@ == name@, r.evr.epoch@ == epoch@, r.evr.version@ == version@, r.evr.release@ == release@, r.arch@ == arch@,'),
+    Fn(VER, 'parse', impl="impl<'a> Nevra<'a>",
+       subs=[("pub fn parse(nevra: &'a str) -> Self", 'pub fn parse(nevra: &str) -> (x: Nevra)', 1, 'R3-named-return'), (re.compile(r'\b([A-Za-z_][\w.]*) == ("[^"]*")'), r'str_eq(\1, \2)', None, 'R11-&str comparison with a literal')],
+       spec='''    ensures
+        forall|n: Seq<char>, e: Seq<char>, v: Seq<char>, r: Seq<char>, a: Seq<char>|
+            evr_wf(e, v, r) && arch_wf(a) && nevra@ == #[trigger] nevra_text(n, e, v, r, a)
+            ==> x.name@ == n && x.evr.epoch@ == e && x.evr.version@ == v && x.evr.release@ == r && x.arch@ == a,'''),
     Fn(VER, 'as_normalized_form', impl="impl<'a> Nevra<'a>",
        subs=[ret(), format_rule()],
        spec='''    ensures r@ == nevra_text(self.name@, epoch_or_zero(self.evr.epoch@), self.evr.version@, self.evr.release@, self.arch@),''',
@@ -393,7 +423,8 @@ pub fn canary_c15(x: &Evr)
 '''),
 ] + TAIL
 
-OBLIGATIONS = {'Evr::parse_values': ['C15'], 'Nevra::parse_values': ['C15'], 'Evr::as_normalized_form': ['C15'],
+OBLIGATIONS = {'Evr::new': ['C15'], 'Evr::from_tuple': ['C15'], 'Evr::parse': ['C15'], 'Nevra::new': ['C15'], 'Nevra::parse': ['C15'],
+               'Evr::parse_values': ['C15'], 'Nevra::parse_values': ['C15'], 'Evr::as_normalized_form': ['C15'],
                'Nevra::as_normalized_form': ['C15'], 'Evr::vfmt': ['C15'], 'Nevra::vfmt': ['C15'],
                'c15_evr_roundtrip': ['C15'], 'c15_nevra_roundtrip': ['C15'], 'c15_normalized_has_epoch': ['C15'],
                'lemma_first_split_unique': ['C15'], 'lemma_last_split_unique': ['C15'], 'lemma_nevra_text_splits': ['C15'], 'lemma_evr_text_splits': ['C15'], 'lemma_has_concat': ['C15']}
